@@ -688,6 +688,26 @@ mod api {
                 o.sample(json!({"keys": w, "list": list}));
             }
         }}}}
+        // a word typed with more keys than it has code points (ে ক া -> কো; hasanta + hasanta), erased with plain backspaces: nothing of
+        // its raw keys is left, so an emoticon typed next offers its emoji (C18) and the raw-key candidate is the new keys only (C06, C15)
+        if shard == 0 {
+            for (cfgx, word) in [(json!({"fixed_suggestion": true, "fixed_kar_order": true, "include_english": true, "fixed_vowel": true}), "dtp"),
+                                 (json!({"fixed_suggestion": true, "include_english": true, "fixed_vowel": true}), "twwt")] {
+                o.cases += 1;
+                let cfgv = fixed_cfg(cfgx);
+                let mut s = Sess::new(cfgv.clone());
+                let _ = s.typ(word);
+                let mut n = 0;
+                while s.ctx.ongoing_input_session() && n < 10 { let _ = s.bs(false); n += 1; }
+                let sg = s.typ(";)").unwrap();
+                let mut fresh = Sess::new(cfgv.clone());
+                let want = fresh.typ(";)").unwrap();
+                if show(&sg) != show(&want) {
+                    o.fail(json!({"clause": "C06 C18 C15 after a word is erased with backspaces an emoticon typed next is answered as in a new context (its emoji offered, raw keys = the new keys only)", "history": s.history(), "observed": show(&sg), "expected": show(&want)}));
+                }
+                o.nontrivial += 1;
+            }
+        }
         // old vowel-sign order with list suggestions on: after EVERY key the first candidate and the auxiliary text are the text
         // composed so far (same keys in a context with list suggestions off), also when a key rewrites a sign in place (ে + া -> ো)
         if shard == 0 {
@@ -1742,6 +1762,38 @@ mod rules {
                     }
                 }
                 if h.chars().count() == bound { nt += 1; }
+            });
+        }
+        // old vowel-sign order ON with backspaces (no model needed): an event that returns an empty suggestion leaves an idle context
+        // that answers the next key like a new one; non-empty pre-edit text implies an open session; backspaces reach the idle state
+        {
+            let keys_on = ['t', 'u', 'w', 'p', 'e', 'd', '\u{8}'];
+            let mut cfgv = fixed_cfg(json!({"fixed_vowel": true, "fixed_kar_order": true}));
+            cfgv.as_object_mut().unwrap().remove("database_dir");
+            let probe_of = |k: char| -> String { let mut f = Sess::new(cfgv.clone()); let sg = f.key(k, 0); if sg.is_empty() { String::new() } else { sg.get_lonely_suggestion().to_string() } };
+            let fresh_t = probe_of('t');
+            cases += for_all_strings(&keys_on, bound.min(5), shard, nshards, |h| {
+                let mut s = Sess::new(cfgv.clone());
+                let mut bad = false;
+                for c in h.chars() {
+                    let sg = if c == '\u{8}' { s.bs(false) } else { s.key(c, 0) };
+                    let text = if sg.is_empty() { String::new() } else { sg.get_lonely_suggestion().to_string() };
+                    if !text.is_empty() && !s.ctx.ongoing_input_session() {
+                        fails.push(json!({"clause": "C06 non-empty pre-edit text implies an ongoing session (old vowel-sign order)", "history": s.history(), "observed": text})); bad = true; break;
+                    }
+                    if c == '\u{8}' && sg.is_empty() && s.ctx.ongoing_input_session() {
+                        fails.push(json!({"clause": "C06 C14 a backspace that returns an empty suggestion ends the session (old vowel-sign order: a sign must not be left waiting)", "history": s.history()})); bad = true; break;
+                    }
+                }
+                if bad { return; }
+                // repeated backspaces reach the idle state ...
+                let mut n = 0;
+                while s.ctx.ongoing_input_session() && n < 12 { let _ = s.bs(false); n += 1; }
+                if s.ctx.ongoing_input_session() { fails.push(json!({"clause": "C06 repeated backspaces always reach the idle state (old vowel-sign order)", "history": s.history()})); return; }
+                // ... and the idle context answers like a new one
+                let sg = s.key('t', 0);
+                let got = if sg.is_empty() { String::new() } else { sg.get_lonely_suggestion().to_string() };
+                if got != fresh_t { fails.push(json!({"clause": "C06 C14 after the word is erased nothing of it (text or waiting sign) leaks into the next word (old vowel-sign order)", "history": s.history(), "observed": got, "expected": fresh_t})); }
             });
         }
         // C14: syllables in typewriter order (option on) vs Unicode order (option off)
